@@ -35,7 +35,7 @@ def random_spelling(rng: random.Random, nfilters: int, has_params: bool) -> Dict
     sp: Dict[str, Any] = {
         "kw_eol": rng.choice(KW_EOLS),
         "end_eol": rng.choice((b"\n", b"\n", b"\r\n", b"\r", b"")),
-        "dict_sep": rng.choice((b"\n", b"\n", b"\r\n", b" ", b"")),
+        "dict_sep": rng.choice((b"\n", b"\n", b"\r\n", b" ", b"", b" %stream\n", b"\n% endstream comment\r\n")),
         "length": rng.choice(LENGTH_MODES),
         "length_pos": rng.choice(("first", "last", "middle")),
         "abbrev": [rng.random() < 0.4 for _ in range(nfilters)],
@@ -177,6 +177,11 @@ class StreamDocBuilder:
             entries.append(("Width", 1))
             entries.append(("Height", 1))
             entries.append(("DL", 12345))
+            if rng.random() < 0.5:
+                # a string and a name that merely contain the keywords
+                entries.append(("Note", rng.choice((b"stream\r\n", b"endstream endobj", b">> stream\n", b"(endstream)"))))
+                entries.append(("Name", Name(rng.choice(("stream", "endstream", "Length")))))
+                entries.append(("Nested", {"Length": 7, "Filter": Name("ASCIIHexDecode"), "A": [1, {"Length": 9}]}))
         rng.shuffle(entries)
         if sn is None:
             sn = self._alloc()
